@@ -18,6 +18,98 @@ HC = "half_connection::HalfConnection::"
 def run(cx):
     sync_reply_mechanism(cx, "C11.a", "C11.b")
     rest(cx)
+    window_limited_still_syncs(cx, "C11.f")
+    resync_acceptance(cx, "C11.g")
+
+
+def window_limited_still_syncs(cx, iid):
+    """being frame-window limited must not prevent the sync frame: both push sites of
+    emit_data_frames return Ok on WindowLimited (Err only on SizeLimited), and emit_frames reaches
+    emit_sync_frame whenever emit_data_frames returned Ok"""
+    R = cx.R
+    with cx.instance(iid, "T8 TABLE + T2", "WindowLimited -> Ok, SizeLimited -> Err at both push sites; the sync frame is attempted after every Ok", floor=4) as inst:
+        b = R.body(HC + "emit_data_frames")
+        fa = cx.fa(b)
+        n = 0
+        for loc, kind, node in b.defs.get(0, []):
+            if kind != "assign":
+                continue
+            v = show(b.rvalue_expr(node["rv"]))
+            alts = fa.at(loc) or []
+            for tag in ("WindowLimited", "SizeLimited"):
+                under = all(any(re.fullmatch(r"is\(DataFrameEmitter::push\(.*\)@Err\.0,%s\)" % tag, l) for l in a) for a in alts) and alts
+                if under:
+                    n += 1
+                    inst.site(b, loc, "%s -> %s" % (tag, v))
+                    want = "Ok{tuple{}}" if tag == "WindowLimited" else "Err{tuple{}}"
+                    if v != want:
+                        inst.violation(b.path, "push error mapping " + tag, "a %s push error makes emit_data_frames return `%s`: %s" % (tag, v, "the sync frame that reopens a fully lost frame window is then never sent" if tag == "WindowLimited" else "flush would continue although the budget is exhausted"), at=b.span_at(loc))
+        if n != 4:
+            inst.violation(b.path, "push error arms", "expected WindowLimited/SizeLimited arms at both push sites (4 returns), found %d" % n)
+        ef = R.body(HC + "emit_frames")
+        efa = cx.fa(ef)
+        cs = call_sites(ef, "HalfConnection::emit_sync_frame")
+        if len(cs) != 1:
+            inst.violation(ef.path, "emit_sync_frame", "emit_frames should attempt the sync frame exactly once")
+        for bb in ef.reachable:
+            t = ef.term(bb)
+            if t["k"] == "switch":
+                for y, lb in ef.succ[bb]:
+                    lits = efa.edge_lits.get((bb, y, lb[1]), [])
+                    if any(re.fullmatch(r"is\(HalfConnection::emit_data_frames\(.*\),Ok\)", l) for l in lits):
+                        inst.site(ef, Loc(bb, 0), "emit_data_frames Ok edge")
+                        if ef.reach_exit_avoiding(Loc(y, -1), [l for l, _ in cs]) is not None:
+                            inst.violation(ef.path, "sync skipped after Ok", "emit_frames can finish without attempting the sync frame although data emission returned Ok")
+
+
+def resync_acceptance(cx, iid):
+    """T1x: a resynchronisation request is refused only when it lies beyond one window: the
+    refusing exits are taken exactly under the negation of the acceptance test"""
+    R = cx.R
+    with cx.instance(iid, "T1x EXACT-GUARD", "PacketReceiver::resynchronize refuses only sender_delta > window_size (a full lost window, delta == size, must be accepted); frame window advance refuses only delta == 0 or delta > size", floor=2) as inst:
+        b = R.body("PacketReceiver::resynchronize")
+        fa = cx.fa(b)
+        sinks = call_sites(b, "PacketReceiver::advance_window")
+        d = r"packet_id::sub\(arg2,arg1\.base_id\)"
+        cx.guard(inst, b, sinks, [[r"le\(%s,arg1\.receive_window_size\)" % d]], construct="resync beyond one window accepted")
+        tl = {l.bb for l, _ in sinks}
+        n = 0
+        for bb in sorted(b.reachable):
+            t = b.term(bb)
+            if t["k"] != "switch":
+                continue
+            for y, lab in b.succ[bb]:
+                if _reach(b, y, tl) or not _reach(b, bb, tl):
+                    continue
+                lits = fa.edge_lits.get((bb, y, lab[1]), [])
+                n += 1
+                inst.site(b, Loc(bb, 0), "refusing edge: " + " ".join(lits)[:90])
+                if not any(re.fullmatch(r"lt\(arg1\.receive_window_size,%s\)" % d, l) or re.fullmatch(r"!packet_id::is_valid\(arg2\)", l) for l in lits):
+                    inst.violation(b.path, "resync over-rejected", "resynchronize refuses on `%s`: a sender exactly one full window ahead (every packet of a full window lost) would never be resynchronised" % " ".join(lits)[:120])
+        a = R.body("ReceiveWindow::advance")
+        afa = cx.fa(a)
+        for loc, kind, node in a.defs.get(0, []):
+            if kind == "assign" and show(a.rvalue_expr(node["rv"])) == "false":
+                inst.site(a, loc, "advance refuses")
+                dd = r"u32::wrapping_sub\(arg2,arg1\.base_id\)"
+                g, _ = dnf_holds(afa.at(loc), [[r"eq\(0,%s\)" % dd], [r"lt\(arg1\.size,%s\)" % dd]])
+                if not g:
+                    inst.violation(a.path, "frame resync over-rejected", "ReceiveWindow::advance refuses an advance of 1..size frames")
+
+
+def _reach(b, start, targets):
+    seen = set()
+    st = [start]
+    while st:
+        x = st.pop()
+        if x in targets:
+            return True
+        if x in seen:
+            continue
+        seen.add(x)
+        for y, _ in b.succ[x]:
+            st.append(y)
+    return False
 
 
 def sync_reply_mechanism(cx, ida, idb):
